@@ -9,6 +9,10 @@
     rogw/tranp/implements/cpp/transpiler/py2cpp.py      proc_move_assign_single (670-690): `declared = receiver_raw.decl.declare == node`
                                                         → assign/move_assign_declare.j2 `T v = e;`, else assign/move_assign.j2 `v = e;`;
                                                         on_return, on_if / on_else_if / on_else, on_while with flow/*.j2, statement/return.j2
+    rogw/tranp/implements/cpp/transpiler/py2cpp.py      proc_for_range (495-510): range(stop) / range(begin, stop) / range(begin, stop, step) → flow/for/range.j2 with
+                                                        begin = `0` / step = `1` supplied, the arguments transpiled from the syntax tree (ed1a7d7)
+    data/cpp/template/{assign/move_assign*.j2, statement/return.j2, flow/if/*.j2, flow/while.j2, flow/for/range.j2}
+                                                        via Tranp.Generated.CppTemplates (translator): `emitLines` interprets the generated lines
   The declared type `T` is a parameter (`typeOf`: what `Reflections.type_of(value)` / `to_accessible_name` gave — type inference is C03's subject).
 
   Semantics, on ints in variables and ints/bools in expressions (`denotePy` / `denoteCpp` of Model/EmitSem):
@@ -21,6 +25,7 @@
 import Tranp.Model.EmitSem
 
 namespace Tranp.Emit
+open Tranp Tranp.Generated.CppTemplates
 
 abbrev Var := Nat
 
@@ -32,6 +37,8 @@ inductive Stmt where
   /-- `if c: … elif c: … [else: …]` -/
   | ifs (arms : Arms) (hasElse : Bool) (els : Block)
   | while_ (c : Node) (body : Block)
+  /-- `for name in range(begin, stop, step): body` (the one/two-argument forms have begin = `0` / step = `1` as the emitter supplies them) -/
+  | forRange (v : Var) (name : Str) (begin stop step : Node) (body : Block)
 inductive Block where
   | nil
   | cons (s : Stmt) (rest : Block)
@@ -62,6 +69,7 @@ inductive AStmt where
   | ret (e : Node)
   | ifs (arms : AArms) (hasElse : Bool) (els : ABlock)
   | while_ (c : Node) (body : ABlock)
+  | forRange (v : Var) (name : Str) (begin stop step : Node) (body : ABlock)
 inductive ABlock where
   | nil
   | cons (s : AStmt) (rest : ABlock)
@@ -94,6 +102,11 @@ def annotD (d : List (Scope × Var)) (k : Nat) (s : Scope) : Block → ABlock ×
     let (b, d1, k1) := annotD d (k + 1) (s ++ [k]) body
     let (r, d2, k2) := annotD d1 k1 s rest
     (.cons (.while_ c b) r, d2, k2)
+  | .cons (.forRange v name b0 s0 t0 body) rest =>
+    -- the loop variable is declared by the `for` itself (`auto i`, always) in the scope of the loop, the body is that scope
+    let (b, d1, k1) := annotD (d ++ [(s ++ [k], v)]) (k + 1) (s ++ [k]) body
+    let (r, d2, k2) := annotD d1 k1 s rest
+    (.cons (.forRange v name b0 s0 t0 b) r, d2, k2)
 def annotDArms (d : List (Scope × Var)) (k : Nat) (s : Scope) : Arms → AArms × List (Scope × Var) × Nat
   | .one c b =>
     let (b', d', k') := annotD d (k + 1) (s ++ [k]) b
@@ -129,32 +142,52 @@ def annotV (vs : VStack) : Block → ABlock
   | .cons (.ret e) rest => .cons (.ret e) (annotV vs rest)
   | .cons (.ifs arms he els) rest => .cons (.ifs (annotVArms vs arms) he (annotV ([] :: vs) els)) (annotV vs rest)
   | .cons (.while_ c body) rest => .cons (.while_ c (annotV ([] :: vs) body)) (annotV vs rest)
+  | .cons (.forRange v name b0 s0 t0 body) rest => .cons (.forRange v name b0 s0 t0 (annotV ([] :: [v] :: vs) body)) (annotV vs rest)
 def annotVArms (vs : VStack) : Arms → AArms
   | .one c b => .one c (annotV ([] :: vs) b)
   | .more c b rest => .more c (annotV ([] :: vs) b) (annotVArms vs rest)
 end
 
-/-! ## emitted text (lines, indentation dropped) -/
+/-! ## emitted text (lines, indentation dropped)
 
-def sLit (s : String) : Str := s.toList
+  The lines are instances of the statement templates as translated into `Tranp.Generated.CppTemplates` (assign/move_assign*.j2,
+  statement/return.j2, flow/if/*.j2, flow/while.j2, flow/for/range.j2): `emitLines` interprets the generated pieces, it does not
+  restate them. The statements of a block are rendered one per line in order (the `{% for statement in statements %}` block the
+  translator checks in every flow template). -/
+
+def sReceiver : Str := ['r', 'e', 'c', 'e', 'i', 'v', 'e', 'r']
+def sVarType : Str := ['v', 'a', 'r', '_', 't', 'y', 'p', 'e']
+def sReturnValue : Str := ['r', 'e', 't', 'u', 'r', 'n', '_', 'v', 'a', 'l', 'u', 'e']
+def sSymbol : Str := ['s', 'y', 'm', 'b', 'o', 'l']
+def sBegin : Str := ['b', 'e', 'g', 'i', 'n']
+def sSize : Str := ['s', 'i', 'z', 'e']
+def sStep : Str := ['s', 't', 'e', 'p']
 
 def exprText (e : Node) : Str := text (emitRaw e)
+
+/-- one rendered template line -/
+def line (shape : List Piece) (args : List (Str × List RTok)) : Str := text (instantiate args shape)
+
+def word (s : Str) : List RTok := [.t (.sym s)]
 
 mutual
 def emitLines (typeOf : Node → Str) : ABlock → List Str
   | .nil => []
-  | .cons (.decl _ name e) rest => (typeOf e ++ ' ' :: name ++ [' ', '=', ' '] ++ exprText e ++ [';']) :: emitLines typeOf rest
-  | .cons (.set _ name e) rest => (name ++ [' ', '=', ' '] ++ exprText e ++ [';']) :: emitLines typeOf rest
-  | .cons (.ret e) rest => (['r', 'e', 't', 'u', 'r', 'n', ' '] ++ exprText e ++ [';']) :: emitLines typeOf rest
+  | .cons (.decl _ name e) rest =>
+    line stmtDeclare [(sVarType, word (typeOf e)), (sReceiver, word name), (sValue, emitRaw e)] :: emitLines typeOf rest
+  | .cons (.set _ name e) rest => line stmtAssign [(sReceiver, word name), (sValue, emitRaw e)] :: emitLines typeOf rest
+  | .cons (.ret e) rest => line stmtReturn [(sReturnValue, emitRaw e)] :: emitLines typeOf rest
   | .cons (.ifs arms he els) rest =>
-    emitArms typeOf true arms ++ (if he then ['}', ' ', 'e', 'l', 's', 'e', ' ', '{'] :: emitLines typeOf els else []) ++ [['}']] ++ emitLines typeOf rest
+    emitArms typeOf true arms ++ (if he then line stmtElseHead [] :: emitLines typeOf els else []) ++ [stmtIfTail] ++ emitLines typeOf rest
   | .cons (.while_ c body) rest =>
-    (['w', 'h', 'i', 'l', 'e', ' ', '('] ++ exprText c ++ [')', ' ', '{']) :: (emitLines typeOf body ++ [['}']] ++ emitLines typeOf rest)
+    line stmtWhileHead [(sCondition, emitRaw c)] :: (emitLines typeOf body ++ [stmtWhileTail] ++ emitLines typeOf rest)
+  | .cons (.forRange _ name b0 s0 t0 body) rest =>
+    line stmtForRangeHead [(sSymbol, word name), (sBegin, emitRaw b0), (sSize, emitRaw s0), (sStep, emitRaw t0)]
+      :: (emitLines typeOf body ++ [stmtForRangeTail] ++ emitLines typeOf rest)
 def emitArms (typeOf : Node → Str) (first : Bool) : AArms → List Str
-  | .one c b =>
-    ((if first then ['i', 'f', ' ', '('] else ['}', ' ', 'e', 'l', 's', 'e', ' ', 'i', 'f', ' ', '(']) ++ exprText c ++ [')', ' ', '{']) :: emitLines typeOf b
+  | .one c b => line (if first then stmtIfHead else stmtElifHead) [(sCondition, emitRaw c)] :: emitLines typeOf b
   | .more c b rest =>
-    ((if first then ['i', 'f', ' ', '('] else ['}', ' ', 'e', 'l', 's', 'e', ' ', 'i', 'f', ' ', '(']) ++ exprText c ++ [')', ' ', '{']) :: (emitLines typeOf b ++ emitArms typeOf false rest)
+    line (if first then stmtIfHead else stmtElifHead) [(sCondition, emitRaw c)] :: (emitLines typeOf b ++ emitArms typeOf false rest)
 end
 
 /-! ## semantics -/
@@ -232,6 +265,23 @@ def pyStmt (lits : Lits) : Nat → Store → Stmt → Except Err (Outcome Store)
     | .ok (.bool false) => .ok (.normal σ)
     | .ok _ => .error .outOfSubset
     | .error er => .error er
+  | fuel + 1, σ, .forRange v _ b0 s0 t0 body =>
+    -- `range(begin, stop, step)` is evaluated ONCE, before the first iteration; a positive step (the emitted `i < stop` test)
+    match pyExpr' lits σ b0, pyExpr' lits σ s0, pyExpr' lits σ t0 with
+    | .ok (.int b), .ok (.int s), .ok (.int t) => if 1 ≤ t then pyFor lits fuel σ v b s t body else .error .outOfSubset
+    | _, _, _ => .error .outOfSubset
+/-- the iterations of `for v in range(cur, stop, step)`: `v` is (re)bound to the next value of the range whatever the body did to it -/
+def pyFor (lits : Lits) : Nat → Store → Var → Int → Int → Int → Block → Except Err (Outcome Store)
+  | 0, _, _, _, _, _, _ => .error .outOfSubset
+  | fuel + 1, σ, v, cur, stop, step, body =>
+    if cur < stop then
+      if inI32 (cur + step) then
+        match pyExec lits fuel (σ.put v cur) body with
+        | .ok (.normal σ') => pyFor lits fuel σ' v (cur + step) stop step body
+        | .ok (.returned r) => .ok (.returned r)
+        | .error er => .error er
+      else .error .outOfSubset     -- the C++ increment after this iteration would overflow
+    else .ok (.normal σ)
 def pyArms (lits : Lits) : Nat → Store → Arms → Block → Except Err (Outcome Store)
   | 0, _, _, _ => .error .outOfSubset
   | fuel + 1, σ, .one c b, els =>
@@ -325,6 +375,34 @@ def cStmt (lits : Lits) : Nat → Frames → AStmt → Except Err (Outcome Frame
         | .error er => .error er
       else .ok (.normal fs)
     | .error er => .error er
+  | fuel + 1, fs, .forRange v _ b0 s0 t0 body =>
+    -- `for (auto v = begin; …) { … }`: `v` lives in the scope of the for statement, dropped after the loop
+    match cExpr lits fs b0 with
+    | .ok b => popOut (cFor lits fuel ([(v, b)] :: fs) v s0 t0 body)
+    | .error er => .error er
+/-- `for (…; v < stop; v += step) { body }` from the loop test on: `stop` and `step` are evaluated on EVERY iteration, `v` is
+    whatever the body left in it. (`stop` is read as an expression of its own: a stop that would need parentheses after
+    `v < ` is the known finding flat:range-arg, excluded by `tightArg`.) -/
+def cFor (lits : Lits) : Nat → Frames → Var → Node → Node → ABlock → Except Err (Outcome Frames)
+  | 0, _, _, _, _, _ => .error .ub
+  | fuel + 1, fs, v, s0, t0, body =>
+    match fs.get v, cExpr lits fs s0 with
+    | some cur, .ok s =>
+      if cur < s then
+        match popOut (cExec lits fuel ([] :: fs) body) with
+        | .ok (.normal fs') =>
+          match fs'.get v, cExpr lits fs' t0 with
+          | some cur', .ok t =>
+            if inI32 (cur' + t) then
+              match fs'.set v (cur' + t) with
+              | some fs'' => cFor lits fuel fs'' v s0 t0 body
+              | none => .error .ub
+            else .error .ub
+          | _, _ => .error .ub
+        | .ok (.returned r) => .ok (.returned r)
+        | .error er => .error er
+      else .ok (.normal fs)
+    | _, _ => .error .ub
 def cArms (lits : Lits) : Nat → Frames → AArms → ABlock → Except Err (Outcome Frames)
   | 0, _, _, _ => .error .ub
   | fuel + 1, fs, .one c b, els =>
@@ -343,6 +421,31 @@ def exprOK (lits : Lits) (vs : VStack) (e : Node) : Bool :=
   core e && wf e && cmpChainFree e && (readsOf lits e).all (visible vs)
 
 mutual
+/-- names a block may assign (assignment targets and loop variables, at any depth) -/
+def writes : Block → List Var
+  | .nil => []
+  | .cons (.assign v _ _) rest => v :: writes rest
+  | .cons (.ret _) rest => writes rest
+  | .cons (.ifs arms _ els) rest => writesArms arms ++ writes els ++ writes rest
+  | .cons (.while_ _ body) rest => writes body ++ writes rest
+  | .cons (.forRange v _ _ _ _ body) rest => v :: writes body ++ writes rest
+def writesArms : Arms → List Var
+  | .one _ b => writes b
+  | .more _ b rest => writes b ++ writesArms rest
+end
+
+/-- an argument that may follow `v < ` unparenthesised: C++ reads `v < stop` as the comparison with the whole of it -/
+def tightArg : Node → Bool
+  | .atom _ _ => true
+  | .group _ => true
+  | .factor _ _ => true
+  | .chain lv _ _ _ => decide (cmpLevel < lv)
+  | _ => false
+
+/-- what the body must leave alone: the loop variable and everything `stop` / `step` read (they are re-evaluated by the C++ loop) -/
+def loopFixed (lits : Lits) (v : Var) (s0 t0 : Node) : List Var := v :: readsOf lits s0 ++ readsOf lits t0
+
+mutual
 /-- walk the function body with the stack of visible names exactly as `annotV` does -/
 def scopeOK (lits : Lits) : VStack → Block → Bool
   | _, .nil => true
@@ -350,6 +453,12 @@ def scopeOK (lits : Lits) : VStack → Block → Bool
   | vs, .cons (.ret e) rest => exprOK lits vs e && scopeOK lits vs rest
   | vs, .cons (.ifs arms _ els) rest => armsOK lits vs arms && scopeOK lits ([] :: vs) els && scopeOK lits vs rest
   | vs, .cons (.while_ c body) rest => exprOK lits vs c && scopeOK lits ([] :: vs) body && scopeOK lits vs rest
+  | vs, .cons (.forRange v _ b0 s0 t0 body) rest =>
+    -- the loop variable is a fresh name (not visible: else the `auto v` of the for shadows the outer one and Python's rebinding of
+    -- it is lost), the body writes neither it nor anything stop/step read, stop may follow `v < `
+    exprOK lits vs b0 && exprOK lits vs s0 && exprOK lits vs t0 && !visible vs v && tightArg s0
+      && (loopFixed lits v s0 t0).all (fun x => !(writes body).contains x)
+      && scopeOK lits ([] :: [v] :: vs) body && scopeOK lits vs rest
 def armsOK (lits : Lits) : VStack → Arms → Bool
   | vs, .one c b => exprOK lits vs c && scopeOK lits ([] :: vs) b
   | vs, .more c b rest => exprOK lits vs c && scopeOK lits ([] :: vs) b && armsOK lits vs rest
